@@ -29,6 +29,7 @@ type LockClass struct {
 	ConfFuncs map[string]bool
 	Entry     map[string]bool // extra entry points (goroutine bodies, callbacks) analysed with the lock not held
 	HeldFuncs map[string]bool // methods documented to be called with the lock held
+	BalanceOnly bool          // only lock/unlock/exit obligations (no field-access obligations)
 	Pkg       string
 }
 
@@ -55,6 +56,9 @@ func parseLockClass(lines []string, pkg string, typ string) *LockClass {
 			m = lc.Entry
 		case "heldfuncs":
 			m = lc.HeldFuncs
+		case "balanceonly":
+			lc.BalanceOnly = true
+			continue
 		default:
 			continue
 		}
@@ -277,7 +281,7 @@ func (d *discAnalysis) analyse(fn *ssa.Function, in heldSet) heldSet {
 			continue
 		}
 		for _, ins := range b.Instrs {
-			if fld, base, ok := d.fieldOf(ins); ok && accessesMemory(ins) {
+			if fld, base, ok := d.fieldOf(ins); ok && !d.lc.BalanceOnly && accessesMemory(ins) {
 				_ = base
 				switch {
 				case d.lc.Guarded[fld]:
@@ -490,7 +494,7 @@ func RunDiscipline(run *PropRun, e *Engine, lc *LockClass) {
 	st := named.Underlying().(*types.Struct)
 	for i := 0; i < st.NumFields(); i++ {
 		f := st.Field(i).Name()
-		if !(lc.Guarded[f] || lc.InitOnly[f] || lc.Confined[f] || lc.Channel[f]) {
+		if !(lc.Guarded[f] || lc.InitOnly[f] || lc.Confined[f] || lc.Channel[f]) && !lc.BalanceOnly {
 			d.site(fmt.Sprintf("%s/unclassified-field[%s]", lc.Type, f), false, "field "+f+" of "+lc.Type+" has no lock class in the contract file", token.NoPos)
 		}
 	}
